@@ -95,9 +95,9 @@ fn pick_red(r: &mut Rng, for_option: bool) -> Given {
     match r.below(6) {
         0..=1 => {
             if for_option {
-                Given::Valid(r.pick(&["0.5 0.6 0.1", "1 0 0", "0.25 1.75 0.4", "0 2.5 0.5", "0 1.3 0.3", "0.0 1.30 0.300"]).to_string())
+                Given::Valid(r.pick(&["0.5 0.6 0.1", "1 0 0", "0.25 1.75 0.4", "0 2.5 0.5", "0 1.3 0.3", "0.0 1.30 0.300", "0.123 1.456 0.789", "0.005 0.015 0.001"]).to_string())
             } else {
-                Given::Valid(r.pick(&["0.5, 0.6, 0.1", "(1, 0, 0)", "{ ren: 0.25, nren: 1.75, co2: 0.4 }", "0,2.5,0.5", "0.500, 0.600, 0.100", "0, 1.3, 0.3", "{ ren: 0, nren: 1.3, co2: 0.3 }"]).to_string())
+                Given::Valid(r.pick(&["0.5, 0.6, 0.1", "(1, 0, 0)", "{ ren: 0.25, nren: 1.75, co2: 0.4 }", "0,2.5,0.5", "0.500, 0.600, 0.100", "0, 1.3, 0.3", "{ ren: 0, nren: 1.3, co2: 0.3 }", "0.321, 1.654, 0.987"]).to_string())
             }
         }
         2 => {
